@@ -339,6 +339,40 @@ def s9(fb, chk):
     chk.floor("S9", n, 12)
 
 
+def fd_bound(fb, chk):
+    """Sibling agreement on the descriptor-count bound: every test of a count against MAX_ATTACHED_FD_ENTRIES in the
+    vhost-user modules accepts `count <= MAX_ATTACHED_FD_ENTRIES` (the specification allows 32 descriptors / regions
+    per message).  A strict test at one site refuses a conformant message the other sites accept."""
+    n = 0
+    for f in fb.fns.values():
+        if f.crate != "vhost" or "vhost_user" not in (f.file or "") or f.rec.get("dk") == "Closure":
+            continue
+        if "::tests::" in f.key or "dummy" in (f.file or ""):
+            continue
+        m = None
+        seen = set()
+        for d, b in enumerate(f.blocks):
+            if b["cleanup"] or b["term"]["k"] != "switch":
+                continue
+            m = m or must_of(fb, f)
+            for sx in m.cfg.succ[d]:
+                for a in m.edge_atoms(d, sx):
+                    if a[0] != "cmp":
+                        continue
+                    for op, x, y in ((a[1], a[2], a[3]), ({"Lt": "Gt", "Gt": "Lt", "Le": "Ge", "Ge": "Le", "Eq": "Eq", "Ne": "Ne"}[a[1]], a[3], a[2])):
+                        if y[0] == "cname" and y[1].endswith("MAX_ATTACHED_FD_ENTRIES"):
+                            k = (d, show(x)[:60])
+                            if k in seen:
+                                continue
+                            seen.add(k)
+                            n += 1
+                            chk.check(op in ("Le", "Gt"), "S14", "%s:%s" % (f.short, show(x)[:40]), "inclusive bound (<= MAX_ATTACHED_FD_ENTRIES accepted)",
+                                      "%s tests %s %s MAX_ATTACHED_FD_ENTRIES: the specification allows up to and including "
+                                      "MAX_ATTACHED_FD_ENTRIES descriptors / regions; this site treats exactly that count differently "
+                                      "(a conformant message is refused here)" % (f.short, show(x)[:50], op), f.loc(b["term"].get("line")))
+    chk.floor("S14", n, 3)
+
+
 def _err_wrap_blocks(f, lhs):
     """Blocks where the local assigned by `lhs` (followed through plain moves) is wrapped into `Err(..)`."""
     if lhs["p"]:
